@@ -179,7 +179,7 @@ def call_closure(ex, st, clo_val, callee, args):
 CONTRACTS = []
 def contract(*pats):
     def deco(fn):
-        for p in pats: CONTRACTS.append((p, fn))
+        for p in pats: CONTRACTS.append((canon_path(p), fn))       # patterns are written against one dump's spelling; match on the canonical one
         return fn
     return deco
 
@@ -230,7 +230,7 @@ def c_from_residual(ex, st, callee, a):
           r'^<Vec<u8> as Deref(Mut)?>::deref(_mut)?$', r'^<\[u8\] as AsRef<\[u8\]>>::as_ref$', r'^<&\[u8; \d+\] as (AsRef|Into|Deref|IntoIterator)',
           r'^<GenericArray<.*> as Deref>::deref$', r'^<\[u8; \d+\] as AsRef<\[u8\]>>::as_ref$', r'^<&(mut )?\[u8(; \d+)?\] as Into<&(mut )?GenericArray<',
           r'^<Vec<u8> as AsRef<\[u8\]>>::as_ref$', r'^<GenericArray<u8, .*> as AsRef<\[u8\]>>::as_ref$', r'^<std::string::String as Deref>::deref$', r'^<std::string::String as AsRef<str>>::as_ref$',
-          r'^std::string::String::as_str$', r'^<&str as AsRef<str>>::as_ref$', r'^<str as AsRef<str>>::as_ref$', r'^<std::string::String as Clone>::clone$',
+          r'^(?:std::string::)?String::as_str$', r'^<&str as AsRef<str>>::as_ref$', r'^<str as AsRef<str>>::as_ref$', r'^<std::string::String as Clone>::clone$',
           r'^<std::string::String as From<&str>>::from$', r'^<&str as Into<std::string::String>>::into$', r'^<str as ToString>::to_string$',
           r'^<std::string::String as ToString>::to_string$', r'^<std::string::String as Into<std::string::String>>::into$',
           r'^<Vec<u8> as Clone>::clone$', r'^<sec1::point::EncodedPoint<.*> as AsRef<\[u8\]>>::as_ref$')
@@ -242,83 +242,83 @@ def c_identity(ex, st, callee, a):
     return [(None, v)]
 
 
-@contract(r'^Result::<.*>::unwrap$', r'^Result::<.*>::expect$', r'^std::option::Option::<.*>::unwrap$', r'^std::option::Option::<.*>::expect$')
+@contract(r'^(?:std::result::)?Result::<.*>::unwrap$', r'^(?:std::result::)?Result::<.*>::expect$', r'^(?:std::option::)?Option::<.*>::unwrap$', r'^(?:std::option::)?Option::<.*>::expect$')
 def c_unwrap(ex, st, callee, a):
     v = a[0]
     return [(None, v[3][0])] if v[2] in ('Ok', 'Some') else [(None, Panic('unwrap/expect on ' + v[2] + ' in ' + st.stack[-1]['fn'].name[-60:]))]
 
 
-@contract(r'^Result::<.*>::is_ok$')
+@contract(r'^(?:std::result::)?Result::<.*>::is_ok$')
 def c_is_ok(ex, st, callee, a): return [(None, BoolVal(deref(st, a[0])[2] == 'Ok'))]
 
 
-@contract(r'^Result::<.*>::is_err$')
+@contract(r'^(?:std::result::)?Result::<.*>::is_err$')
 def c_is_err(ex, st, callee, a): return [(None, BoolVal(deref(st, a[0])[2] == 'Err'))]
 
 
-@contract(r'^Result::<.*>::map_err::<')
+@contract(r'^(?:std::result::)?Result::<.*>::map_err::<')
 def c_map_err(ex, st, callee, a):
     v = a[0]
     if v[2] == 'Ok': return [(None, v)]
     return [(None, err(val), s2) for s2, val in call_closure(ex, st, a[1], callee, [v[3][0]])]
 
 
-@contract(r'^Result::<.*>::map::<')
+@contract(r'^(?:std::result::)?Result::<.*>::map::<')
 def c_result_map(ex, st, callee, a):
     v = a[0]
     if v[2] == 'Err': return [(None, v)]
     return [(None, ok(val), s2) for s2, val in call_closure(ex, st, a[1], callee, [v[3][0]])]
 
 
-@contract(r'^Result::<.*>::and_then::<')
+@contract(r'^(?:std::result::)?Result::<.*>::and_then::<')
 def c_result_and_then(ex, st, callee, a):
     v = a[0]
     if v[2] == 'Err': return [(None, v)]
     return [(None, val, s2) for s2, val in call_closure(ex, st, a[1], callee, [v[3][0]])]
 
 
-@contract(r'^Result::<.*>::ok$')
+@contract(r'^(?:std::result::)?Result::<.*>::ok$')
 def c_result_ok(ex, st, callee, a): return [(None, some(a[0][3][0]) if a[0][2] == 'Ok' else NONE)]
 
 
-@contract(r'^Result::<.*>::ok_or_else::<', r'^std::option::Option::<.*>::ok_or_else::<')
+@contract(r'^(?:std::result::)?Result::<.*>::ok_or_else::<', r'^(?:std::option::)?Option::<.*>::ok_or_else::<')
 def c_ok_or_else(ex, st, callee, a):
     v = a[0]
     if v[2] == 'Some': return [(None, ok(v[3][0]))]
     return [(None, err(val), s2) for s2, val in call_closure(ex, st, a[1], callee, [])]
 
 
-@contract(r'^std::option::Option::<.*>::ok_or::<')
+@contract(r'^(?:std::option::)?Option::<.*>::ok_or::<')
 def c_ok_or(ex, st, callee, a): return [(None, ok(a[0][3][0]) if a[0][2] == 'Some' else err(a[1]))]
 
 
-@contract(r'^std::option::Option::<.*>::map_or::<', r'^Result::<.*>::map_or::<')
+@contract(r'^(?:std::option::)?Option::<.*>::map_or::<', r'^(?:std::result::)?Result::<.*>::map_or::<')
 def c_map_or(ex, st, callee, a):
     v = a[0]
     if v[2] in ('None', 'Err'): return [(None, a[1])]
     return [(None, val, s2) for s2, val in call_closure(ex, st, a[2], callee, [v[3][0]])]
 
 
-@contract(r'^std::option::Option::<.*>::and_then::<')
+@contract(r'^(?:std::option::)?Option::<.*>::and_then::<')
 def c_option_and_then(ex, st, callee, a):
     if a[0][2] == 'None': return [(None, NONE)]
     return [(None, val, s2) for s2, val in call_closure(ex, st, a[1], callee, [a[0][3][0]])]
 
 
-@contract(r'^std::option::Option::<.*>::is_some$')
+@contract(r'^(?:std::option::)?Option::<.*>::is_some$')
 def c_is_some(ex, st, callee, a): return [(None, BoolVal(deref(st, a[0])[2] == 'Some'))]
 
 
-@contract(r'^std::option::Option::<.*>::is_none$')
+@contract(r'^(?:std::option::)?Option::<.*>::is_none$')
 def c_is_none(ex, st, callee, a): return [(None, BoolVal(deref(st, a[0])[2] == 'None'))]
 
 
-@contract(r'^std::option::Option::<.*>::take$')
+@contract(r'^(?:std::option::)?Option::<.*>::take$')
 def c_option_take(ex, st, callee, a):
     v = deref(st, a[0]); upd(st, a[0], NONE); return [(None, v)]
 
 
-@contract(r'^std::option::Option::<.*>::(unwrap_or|unwrap_or_else)(::<|$)', r'^Result::<.*>::(unwrap_or|unwrap_or_else)(::<|$)')
+@contract(r'^(?:std::option::)?Option::<.*>::(unwrap_or|unwrap_or_else)(::<|$)', r'^(?:std::result::)?Result::<.*>::(unwrap_or|unwrap_or_else)(::<|$)')
 def c_option_unwrap_or(ex, st, callee, a):
     v = a[0]
     if v[2] in ('Some', 'Ok'): return [(None, v[3][0])]
@@ -326,7 +326,7 @@ def c_option_unwrap_or(ex, st, callee, a):
     return [(None, a[1])]
 
 
-@contract(r'^std::option::Option::<.*>::get_or_insert$')
+@contract(r'^(?:std::option::)?Option::<.*>::get_or_insert$')
 def c_option_get_or_insert(ex, st, callee, a):
     v = deref(st, a[0])
     if v[2] == 'None': upd(st, a[0], some(a[1]))
@@ -338,7 +338,7 @@ def c_option_get_or_insert(ex, st, callee, a):
     return [(None, ('ref', r[1], r[2] + (('dc', 'Some'), ('f', 0))))]
 
 
-@contract(r'^std::option::Option::<.*>::insert$')
+@contract(r'^(?:std::option::)?Option::<.*>::insert$')
 def c_option_insert(ex, st, callee, a):
     upd(st, a[0], some(a[1])); r = a[0]
     while True:
@@ -348,7 +348,7 @@ def c_option_insert(ex, st, callee, a):
     return [(None, ('ref', r[1], r[2] + (('dc', 'Some'), ('f', 0))))]
 
 
-@contract(r'^std::option::Option::<.*>::as_ref$', r'^std::option::Option::<.*>::as_mut$')
+@contract(r'^(?:std::option::)?Option::<.*>::as_ref$', r'^(?:std::option::)?Option::<.*>::as_mut$')
 def c_option_as_ref(ex, st, callee, a):
     v = deref(st, a[0])
     if v[2] == 'None': return [(None, NONE)]
@@ -360,24 +360,24 @@ def c_option_as_ref(ex, st, callee, a):
     return [(None, some(('ref', r[1], r[2] + (('dc', 'Some'), ('f', 0)))))]
 
 
-@contract(r'^std::option::Option::<.*>::(copied|cloned)$')
+@contract(r'^(?:std::option::)?Option::<.*>::(copied|cloned)$')
 def c_option_copied(ex, st, callee, a):
     v = a[0]
     if v[2] == 'None': return [(None, NONE)]
     return [(None, some(deref(st, v[3][0])))]
 
 
-@contract(r'^std::string::String::new$')
+@contract(r'^(?:std::string::)?String::new$')
 def c_string_new(ex, st, callee, a): return [(None, StringVal(''))]
 
 
-@contract(r'^std::option::Option::<.*>::map::<')
+@contract(r'^(?:std::option::)?Option::<.*>::map::<')
 def c_option_map(ex, st, callee, a):
     if a[0][2] == 'None': return [(None, NONE)]
     return [(None, some(val), s2) for s2, val in call_closure(ex, st, a[1], callee, [a[0][3][0]])]
 
 
-@contract(r'^std::option::Option::<.*>::filter::<')
+@contract(r'^(?:std::option::)?Option::<.*>::filter::<')
 def c_option_filter(ex, st, callee, a):
     if a[0][2] == 'None': return [(None, NONE)]
     x = a[0][3][0]; cell = st.new_cell(x); outs = []
@@ -392,7 +392,7 @@ def c_option_filter(ex, st, callee, a):
     return outs
 
 
-@contract(r'^std::option::Option::<.*>::unwrap_or_default$')
+@contract(r'^(?:std::option::)?Option::<.*>::unwrap_or_default$')
 def c_unwrap_or_default(ex, st, callee, a):
     v = a[0]
     if v[2] == 'Some': return [(None, v[3][0])]
@@ -479,7 +479,7 @@ def c_split_at(ex, st, callee, a):
             (k <= n, tup(smart_extract(st, v, IntVal(0), k), smart_extract(st, v, k, simplify(n - k))))]
 
 
-@contract(r'^Vec::<u8>::len$', r'^core::slice::<impl \[u8\]>::len$', r'^std::string::String::len$', r'^core::str::<impl str>::len$')
+@contract(r'^Vec::<u8>::len$', r'^core::slice::<impl \[u8\]>::len$', r'^(?:std::string::)?String::len$', r'^core::str::<impl str>::len$')
 def c_len(ex, st, callee, a): return [(None, seq_len(st, as_bytes(st, a[0])))]
 
 
@@ -487,7 +487,7 @@ def c_len(ex, st, callee, a): return [(None, seq_len(st, as_bytes(st, a[0])))]
 def c_is_empty(ex, st, callee, a): return [(None, simplify(seq_len(st, as_bytes(st, a[0])) == 0))]
 
 
-@contract(r'^core::str::<impl str>::is_empty$', r'^std::string::String::is_empty$')
+@contract(r'^core::str::<impl str>::is_empty$', r'^(?:std::string::)?String::is_empty$')
 def c_str_is_empty(ex, st, callee, a): return [(None, as_str(st, a[0]) == StringVal(''))]
 
 
@@ -501,11 +501,11 @@ def c_copy_from_slice(ex, st, callee, a):
 
 @contract(r'^std::slice::<impl \[u8\]>::to_vec$', r'^<Vec<u8> as From<&\[u8\]>>::from$', r'^<Vec<u8> as From<&\[u8; \d+\]>>::from$',
           r'^core::str::<impl str>::as_bytes$', r'^<std::string::String as AsRef<\[u8\]>>::as_ref$', r'^<str as AsRef<\[u8\]>>::as_ref$',
-          r'^std::string::String::as_bytes$', r'^std::string::String::into_bytes$', r'^<Vec<u8> as From<&str>>::from$')
+          r'^(?:std::string::)?String::as_bytes$', r'^(?:std::string::)?String::into_bytes$', r'^<Vec<u8> as From<&str>>::from$')
 def c_to_bytes(ex, st, callee, a): return [(None, as_bytes(st, a[0]))]
 
 
-@contract(r'^std::vec::from_elem::<u8>$')
+@contract(r'^(?:std::vec::)?from_elem::<u8>$')
 def c_from_elem(ex, st, callee, a):
     n = a[1]
     if is_int_value(n): return [(None, zeros(n.as_long()))]
@@ -582,7 +582,7 @@ def c_from_utf8(ex, st, callee, a):
     return [(And(is_utf8(b), utf8(s) == b), ok(s)), (Not(is_utf8(b)), err(adt('Utf8Error', None)))]
 
 
-@contract(r'^std::string::String::from_utf8$')
+@contract(r'^(?:std::string::)?String::from_utf8$')
 def c_string_from_utf8(ex, st, callee, a):
     b = as_bytes(st, a[0]); st.log.append(('from_utf8', b))
     s = from_utf8_f(b)
